@@ -711,7 +711,7 @@ impl World<'_> {
 
     async fn wait(&mut self, k: usize) -> Got {
         loop {
-            match tokio::time::timeout(Duration::from_secs(5), self.net.ev_rx.recv()).await {
+            match tokio::time::timeout(Duration::from_secs(60), self.net.ev_rx.recv()).await {
                 Err(_) | Ok(None) => {
                     self.hang = true;
                     return Got::Hang;
@@ -1101,7 +1101,7 @@ impl World<'_> {
             }
             Got::Hang => {
                 out.push("HANG".to_owned());
-                self.fail(format!("caller {} neither sent a frame nor finished within 5 s", k));
+                self.fail(format!("caller {} neither sent a frame nor finished within 60 s", k));
                 self.callers[k].op = None;
                 self.callers[k].state = CState::Idle;
             }
